@@ -1,8 +1,12 @@
 (* C07 - Minimizer partition covers every k-mer exactly once with a true minimizer.  Statements only. *)
 From Coq Require Import NArith List Bool Arith.
-From DBG Require Import Spec.Dna Spec.ScanSpec Algo.Scan Check.ScanCheck Proofs.ScanProofs Proofs.ScanSweeps Proofs.ScanCheckProofs.
+From DBG Require Import Gen.SourceConsts Spec.Dna Spec.ScanSpec Algo.Scan Check.ScanCheck Proofs.ScanProofs Proofs.ScanSweeps Proofs.ScanCheckProofs.
 Import ListNotations.
 Open Scope nat_scope.
+
+(* Constants named msp_* come from Gen/SourceConsts.v, regenerated from msp.rs on every run; currently
+   msp_assert_shift = 32 (assert!(len < 1 << 32)), msp_len_bits = 16 (len: u16), msp_simple_max_p = 8,
+   msp_simple_bucket_bits = 16. *)
 
 (* For every score function, every sequence and all 1 <= p <= k <= |seq| (with the two size guards forced by
    the u32 / u16 fields), the scan succeeds and the REPORTED intervals (after the narrowing casts, read back
@@ -17,7 +21,7 @@ Open Scope nat_scope.
    (f) a non-last interval with next k-mer start e ends only because minimizer_pos < e or the p-mer entering
        at e+k-p scores strictly below the minimizer. *)
 Theorem C07_scan_spec : forall (score : dna -> N) sq k p,
-  1 <= p -> p <= k -> k <= length sq -> (N.of_nat (length sq) < 2 ^ 32)%N -> (N.of_nat (2 * k - p) < 2 ^ 16)%N ->
+  1 <= p -> p <= k -> k <= length sq -> (N.of_nat (length sq) < 2 ^ msp_assert_shift)%N -> (N.of_nat (2 * k - p) < 2 ^ msp_len_bits)%N ->
   exists ivs, scan_checked score sq k p = Some ivs /\
               scan_ok score sq k p (map iv_nat ivs) /\ covered_once sq k (map iv_nat ivs).
 Proof. exact scan_checked_spec. Qed.
@@ -41,11 +45,11 @@ Proof. exact scan_ok_covered. Qed.
 
 (* simple_scan (deprecated wrapper, asserts P::k() <= 8): the same intervals under the permutation score *)
 Theorem C07_simple_scan_spec : forall sq k p perm rcmode,
-  1 <= p -> p <= 8 -> p <= k -> k <= length sq -> (N.of_nat (length sq) < 2 ^ 32)%N -> (N.of_nat (2 * k - p) < 2 ^ 16)%N ->
+  1 <= p -> (N.of_nat p <= msp_simple_max_p)%N -> p <= k -> k <= length sq -> (N.of_nat (length sq) < 2 ^ msp_assert_shift)%N -> (N.of_nat (2 * k - p) < 2 ^ msp_len_bits)%N ->
   exists ivs, scan (perm_score perm rcmode) sq k p = Some ivs /\
     scan_ok (perm_score perm rcmode) sq k p (map iv_nat ivs) /\
     simple_scan sq k p perm rcmode =
-      Some (map (fun x => ((bucket_of (iv_minimizer x) mod 2 ^ 16)%N, iv_start x, iv_len x)) ivs).
+      Some (map (fun x => ((bucket_of (iv_minimizer x) mod 2 ^ msp_simple_bucket_bits)%N, iv_start x, iv_len x)) ivs).
 Proof. exact simple_scan_spec. Qed.
 
 (* The boolean checker run by the correspondence driver on the intervals the IMPLEMENTATION reports is sound:
